@@ -25,7 +25,7 @@
 //@ check w_c14_counts     kind=bounded bound=12-u64-boundary-values-squared,zero-column-row-counts-0..=3,300 fn=run_on
 //@ check w_c16_c17_stmt   kind=bounded bound=6-scripts-of-executions-and-long-data-over-2-statements fn=run_on
 //@ check w_c20_malformed kind=bounded bound=48-odd-or-malformed-client-inputs(USE-spellings,unknown-and-truncated-commands,empty-payloads,fragment-ids,all-256-command-bytes) fn=run_on
-//@ check w_c19_faults     kind=bounded bound=every-truncation-point-and-every-failing-transport-operation-of-a-6-command-conversation fn=run_on
+//@ check w_c19_faults     kind=bounded bound=every-truncation-point-and-every-failing-transport-operation-of-a-6-command-conversation,every-failing-operation-of-a-conversation-with-multi-packet-responses fn=run_on
 #![allow(dead_code, unused_imports, unused_variables, clippy::all)]
 use crate::{Column, ColumnFlags, ColumnType, ErrorKind, InitWriter, MysqlIntermediary, MysqlShim, ParamParser, QueryResultWriter, StatementMetaWriter};
 use std::cell::RefCell;
@@ -1125,6 +1125,20 @@ fn w_c19_faults() {
                 assert!(r.result.is_err(), "[C19.w.fault] transport error ({:?}) at operation {} was masked (run_on returned Ok)", kind, k);
                 cases += 1;
             }
+        }
+    }
+    // the same for a response that spans several packets (a row of 16 MiB and more, text and binary):
+    // the write of a maximal packet happens inside PacketConn::write, not at end_packet
+    let bigcmds: Vec<(Vec<u8>, u8)> = vec![(c_query(b"setexec=big:16777300"), 0), (c_prepare(b"p:1:0:0"), 0), (c_execute(1, &[], true), 0), (c_query(b"big:33554430"), 0), (vec![0x0e], 0)];
+    let clean = converse(hs.clone(), &bigcmds, vec![], false, None, None);
+    assert!(clean.result.is_ok(), "[C19.w.run] conversation with multi-packet responses failed: {:?}", clean.result);
+    let nops = clean.net.0.borrow().ops;
+    for k in 0..nops {
+        for pers in [false, true] {
+            let r = converse_k(hs.clone(), &bigcmds, vec![], false, Some((k, pers)), None, io::ErrorKind::BrokenPipe);
+            if r.panicked { continue; }
+            assert!(r.result.is_err(), "[C19.w.fault] {} transport error at operation {} of a conversation with multi-packet responses was masked (run_on returned Ok)", if pers { "persistent" } else { "one-off" }, k);
+            cases += 1;
         }
     }
     // a shim error is returned unchanged
